@@ -37,7 +37,7 @@ func isFloat(t types.Type) bool {
 }
 
 func runC17(e *Engine, r *Report, tier string) {
-	r.Explanation = "C17, structural clauses over fx-core code reachable (module-scoped call graph) from transaction, block, genesis and upgrade entry points. Decided: R1 every `range` over a map is classified by what its body does to anything that outlives the loop — allowed: writes into other maps, delete, counting, commutative exact accumulation (math.Int / LegacyDec .Add, integer +=), append to a slice that is sorted before any other use; violation: a call with a state effect or taking a context, event emission, append without a dominating sort, an early exit; R2 no wall clock, randomness, environment, goroutines, select or channel operations; R3 floating point only in the two reviewed places (power difference, rendered with fixed precision before use), no float value reaches a store write or branch elsewhere; R4 node-local switches (IsCheckTx, IsReCheckTx, MinGasPrices) never guard a state effect. Not decided: determinism of dependencies, cgo and the Go runtime."
+	r.Explanation = "C17, structural clauses over fx-core code reachable (module-scoped call graph) from transaction, block, genesis and upgrade entry points. Decided: R1 every `range` over a map is classified by what its body does to anything that outlives the loop — allowed: writes into other maps, delete, counting, commutative exact accumulation (math.Int / LegacyDec .Add, integer +=), append to a slice that is sorted before any other use; violation: a call with a state effect or taking a context, event emission, append without a dominating sort, an early exit; R2 no wall clock, randomness, environment, goroutines, select or channel operations, and no process-local data (stack dumps, caller info, goroutine/CPU counts, pid) outside logger calls; R3 floating point only in the two reviewed places (power difference, rendered with fixed precision before use), no float value reaches a store write or branch elsewhere; R4 node-local switches (IsCheckTx, IsReCheckTx, MinGasPrices) never guard a state effect. Not decided: determinism of dependencies, cgo and the Go runtime."
 	scope := e.consensusScope()
 	var fns []*ssa.Function
 	for f := range scope {
@@ -86,6 +86,13 @@ func runC17(e *Engine, r *Report, tier string) {
 					case full == "os.Getenv" || full == "os.LookupEnv" || full == "os.Hostname":
 						nbad2++
 						r.Fail("R2", key+" "+full, e.InstrPos(i), "environment read in consensus code")
+					case full == "runtime/debug.Stack" || full == "runtime.Stack" || full == "runtime.Caller" || full == "runtime.Callers" ||
+						full == "runtime.NumGoroutine" || full == "runtime.NumCPU" || full == "runtime.GOMAXPROCS" || full == "os.Getpid" || full == "os.Getppid":
+						// process-local data (goroutine ids, addresses, machine shape): harmless in a log line, not anywhere else
+						if v, ok := x.(ssa.Value); ok && !onlyLogged(v, 0) {
+							nbad2++
+							r.Fail("R2", key+" "+full, e.InstrPos(i), "process-local data ("+full+") flows into something other than a logger call: if it reaches an error text, an event or the store, validators disagree")
+						}
 					}
 				}
 				// R4
@@ -307,4 +314,59 @@ func shortMapDesc(e *Engine, rg *ssa.Range) string {
 		return "var"
 	}
 	return v.Name()
+}
+
+// onlyLogged: every use of v (through interface boxing and variadic argument packing) is an argument of a logger call.
+func onlyLogged(v ssa.Value, depth int) bool {
+	if depth > 6 || v.Referrers() == nil {
+		return false
+	}
+	for _, ref := range *v.Referrers() {
+		switch t := ref.(type) {
+		case *ssa.DebugRef:
+		case *ssa.MakeInterface:
+			if !onlyLogged(t, depth+1) {
+				return false
+			}
+		case *ssa.Convert:
+			if !onlyLogged(t, depth+1) {
+				return false
+			}
+		case *ssa.ChangeType:
+			if !onlyLogged(t, depth+1) {
+				return false
+			}
+		case *ssa.Extract:
+			if !onlyLogged(t, depth+1) {
+				return false
+			}
+		case *ssa.Store:
+			// packing into a variadic argument array
+			ia, ok := t.Addr.(*ssa.IndexAddr)
+			if !ok {
+				return false
+			}
+			arr, ok := ia.X.(*ssa.Alloc)
+			if !ok || arr.Referrers() == nil {
+				return false
+			}
+			for _, r2 := range *arr.Referrers() {
+				if sl, ok := r2.(*ssa.Slice); ok {
+					if !onlyLogged(sl, depth+1) {
+						return false
+					}
+				}
+			}
+		case ssa.CallInstruction:
+			n := callName(t)
+			rt := recvTypeName(t)
+			isLog := (n == "Info" || n == "Error" || n == "Debug" || n == "Warn") && strings.Contains(rt, "log.Logger")
+			if !isLog {
+				return false
+			}
+		default:
+			return false
+		}
+	}
+	return true
 }
